@@ -138,6 +138,17 @@ CLAIMS["C16"] = dict(
               "containing '$' fails. NOT covered: the line-splitting equivalence of InMemorySourceProvider and FileSourceProvider (str.split is "
               "uninterpreted), scan_path / fix_path / fix_string wrappers, OS newline translation.")
 
+CLAIMS["C20"] = dict(
+    text="Proof of the inertness mechanism: every use of an extension's entry point in the parser (extended autolinks handlers, pragma "
+         "detection, front-matter header processing, task-list token creation, the strikethrough delimiter) is dominated by that "
+         "extension's enabled flag (structural obligation per use site); the inline handler tables and the emphasis alphabet are rebuilt "
+         "from the flags for every document (C13 obligations shared); ParseBlockPassProperties copies the flags unchanged; pragma detection "
+         "stores a line only at depth 0 and changes nothing otherwise (pyvc, shared with C11); the pragma-line map has a single writer.",
+    note=TB + "The front-matter position contract planned in DESIGN.md 5/C20 (token + remaining lines shifted by the block length; nothing "
+              "lost on abandon) is NOT discharged: the header loop calls is_thematic_break and the YAML loader, which are outside the "
+              "subset; D7 (assertion at end of input) was found by reading and is fixed (commit acf28c8). NOT covered: 'enabling an "
+              "extension changes the parse only of documents that contain its syntax' (parser-level).")
+
 NA = {
     "C01": "totality of the ~60 kLoC parser is a postcondition of TokenizedMarkdown.transform; no contract chain within reach without a Python deductive verifier (DESIGN.md 7)",
     "C02": "round-trip of parser + 5 kLoC regenerator needs the token stream specified as an encoding of the document (C03+C04+C05 in full) first (DESIGN.md 7)",
